@@ -32,11 +32,13 @@ ASSUMPTIONS = [
     "objectives are smooth; values are compared in float64 with 1e-12 relative slack against hand-written numpy formulas",
     "the compiled variants are called under jax.jit with x0 and maxiter as arguments (maxiter traced) so that one compilation per (objective, absdelta, call style) serves all start points",
     "documented trial lengths of a negative-curvature iteration: 2^-k * g.g/|g.H.g| along -g, k = 0..5 (the successive-halving schedule before its reset)",
+    "eager/compiled agreement is demanded on well-conditioned paths only (Hessian |lambda|min/|lambda|max >= 1e-6 at every iterate); a status pair {-1, 0} at the same point (1e-8) whose remaining Newton decrement is < 1e-13*(1+|E|) counts as a round-off tie, not a disagreement",
     "progress is only demanded where a trial length lowers E by more than 1e-9*(1+|E|) and the full fallback step is longer than 100*xtol",
 ]
 
 E_SLACK = 1e-12
 X_TOL = 1e-8
+TIE_TOL = 1e-13      # energy resolution below which accept/reject of a trial step is a round-off tie
 COND_MIN = 1e-6     # smallest |eigenvalue| / largest |eigenvalue| of the Hessian for the agreement check
 MARGIN = 1e-9
 XTOL = 1e-5          # library default, scaled by size(x0) inside the library
@@ -175,6 +177,15 @@ def _curv_label(ref, x):
     c = float(g @ H @ g)
     margin = 1e-10*float(g @ g)*max(1e-300, np.abs(H).max())
     return ("negcurv" if c < -margin else ("poscurv" if c > margin else "zerocurv")), c, g
+
+
+def _newton_decrement(ref, x):
+    """1/2 g.H^-1.g (energy a Newton step can still gain) where H is positive definite, else inf."""
+    H = ref.h(x)
+    if np.linalg.eigvalsh(H)[0] <= 0:
+        return np.inf
+    g = ref.g(x)
+    return 0.5*float(g @ np.linalg.solve(H, g))
 
 
 def _iterations_from_log(log):
@@ -329,12 +340,18 @@ def check_agree(case):
         event = "iterate-with-zero-curvature-along-gradient"
     else:
         event = "positive-curvature-only"
+    dx = np.abs(a["x"] - b["x"]).max()
+    if {a["status"], b["status"]} == {-1, 0} and dx <= X_TOL*max(1., np.abs(a["x"]).max()) and \
+            all(_newton_decrement(ref, r["x"]) <= TIE_TOL*(1. + abs(ref.f(r["x"]))) for r in (a, b)):
+        # Both variants sit on the same minimiser to float64 resolution: the energy change of a further Newton
+        # step (1/2 g.H^-1.g) is below what float64 resolves, so whether `new_energy <= energy` holds for the
+        # last trial steps (-> status 0) or fails for all nine (-> status -1) is decided by round-off.
+        return ok(nontrivial=False, outcome="agree|roundoff-tie-at-converged-point|status-%d/%d" % (a["status"], b["status"]))
     if _cls(a["status"]) != _cls(b["status"]):
         return bad("eager and static Newton-CG disagree on status: eager=%d static=%d (eager nit=%d, static nit=%d; %s) [%s]"
                    % (a["status"], b["status"], a["nit"], b["nit"], event, _ckey(case)),
                    finding_key="agree|%s|status|eager-%s,static-%s" % (event, _cls(a["status"]), _cls(b["status"])),
                    detail=dict(eager=a["x"].tolist(), static=b["x"].tolist()))
-    dx = np.abs(a["x"] - b["x"]).max()
     if not dx <= X_TOL*max(1., np.abs(a["x"]).max()):
         return bad("eager and static Newton-CG disagree on x by %.3g (status eager=%d static=%d, nit %d/%d; %s) [%s]"
                    % (dx, a["status"], b["status"], a["nit"], b["nit"], event, _ckey(case)),
